@@ -135,7 +135,10 @@ fn cmd_hashes(scens: &[&dyn Scenario], args: &[String]) -> i32 {
     for (i, h) in &out.first_hashes {
         println!("{} {:016x}", i, h);
     }
-    println!("combined {:016x} runs {}", out.combined, out.runs_done);
+    match &out.violation {
+        None => println!("combined {:016x} runs {}", out.combined, out.runs_done),
+        Some(f) => println!("stopped at the first violation: run {} invariant {}", f.idx, f.v.invariant),
+    }
     0
 }
 
